@@ -466,16 +466,40 @@ fn leaf_rposition_shim() {
         None => { let mut j = 0; while j < len { assert!(!p(&s[j])); j += 1; } }
     }
 }
-// ASCII bytes are valid UTF-8 and from_utf8 returns exactly those bytes; bounded: at most 4 bytes
+// core::str::from_utf8 decides exactly Unicode table 3-7 (the definition of valid_utf8 in spec/shims.rs, transcribed below) and
+// returns exactly the given bytes; BOUNDED: every byte sequence of length <= 4 (all one-scalar encodings and their truncations)
+fn t37_cont(b: u8) -> bool { (0x80..=0xBF).contains(&b) }
+fn t37_len(s: &[u8], i: usize) -> usize {
+    let n = s.len();
+    let b0 = s[i];
+    if b0 < 0x80 { 1 }
+    else if (0xC2..=0xDF).contains(&b0) && i + 1 < n && t37_cont(s[i + 1]) { 2 }
+    else if b0 == 0xE0 && i + 2 < n && (0xA0..=0xBF).contains(&s[i + 1]) && t37_cont(s[i + 2]) { 3 }
+    else if ((0xE1..=0xEC).contains(&b0) || (0xEE..=0xEF).contains(&b0)) && i + 2 < n && t37_cont(s[i + 1]) && t37_cont(s[i + 2]) { 3 }
+    else if b0 == 0xED && i + 2 < n && (0x80..=0x9F).contains(&s[i + 1]) && t37_cont(s[i + 2]) { 3 }
+    else if b0 == 0xF0 && i + 3 < n && (0x90..=0xBF).contains(&s[i + 1]) && t37_cont(s[i + 2]) && t37_cont(s[i + 3]) { 4 }
+    else if (0xF1..=0xF3).contains(&b0) && i + 3 < n && t37_cont(s[i + 1]) && t37_cont(s[i + 2]) && t37_cont(s[i + 3]) { 4 }
+    else if b0 == 0xF4 && i + 3 < n && (0x80..=0x8F).contains(&s[i + 1]) && t37_cont(s[i + 2]) && t37_cont(s[i + 3]) { 4 }
+    else { 0 }
+}
+fn t37_valid(s: &[u8]) -> bool {
+    let mut i = 0;
+    while i < s.len() {
+        let k = t37_len(s, i);
+        if k == 0 { return false; }
+        i += k;
+    }
+    true
+}
 #[kani::proof]
 #[kani::unwind(6)]
-fn leaf_ascii_is_utf8() {
+fn leaf_from_utf8_is_table_3_7() {
     let arr: [u8; 4] = kani::any();
     let len: usize = kani::any_where(|l: &usize| *l <= 4);
     let s = &arr[..len];
-    let mut i = 0;
-    while i < len { kani::assume(s[i] < 0x80); i += 1; }
     let r = core::str::from_utf8(s);
-    assert!(r.is_ok());
-    assert!(r.unwrap().as_bytes().as_ptr() == s.as_ptr() && r.unwrap().len() == len);
+    assert_eq!(r.is_ok(), t37_valid(s));
+    if let Ok(st) = r {
+        assert!(st.as_bytes().as_ptr() == s.as_ptr() && st.len() == len);
+    }
 }
